@@ -41,6 +41,29 @@ def read_ut1_utc(path):
     return out
 
 
+def read_finals_full(path):
+    """-> dict mjd -> {x, y, ut1_utc, lod, d1, d2} (None where the file leaves the field blank).  Column positions transcribed
+    from the IERS "readme.finals" (1-based, inclusive): MJD 8-15, PM-x 19-27, PM-y 38-46, UT1-UTC 59-68, LOD 80-86,
+    dPsi / dX 98-106, dEps / dY 117-125 - the values of Bulletin A, the ones the library documents it uses."""
+    cols = {"x": (19, 27), "y": (38, 46), "ut1_utc": (59, 68), "lod": (80, 86), "d1": (98, 106), "d2": (117, 125)}
+    out = {}
+    for line in open(path, encoding="ascii"):
+        line = line.rstrip("\n")
+        try:
+            mjd = int(float(line[8 - 1:15]))
+        except ValueError:
+            continue
+        rec = {}
+        for k, (a, b) in cols.items():
+            txt = line[a - 1:b].strip()
+            try:
+                rec[k] = float(txt) if txt else None
+            except ValueError:
+                rec[k] = None
+        out[mjd] = rec
+    return out
+
+
 def _chunked_table(name, pairs, size=100):
     """function literal as a balanced union of small @@-chains (a single long chain overflows SANY's stack)."""
     if not pairs:
